@@ -1,9 +1,10 @@
 """Shared driver for the compute_features pipeline (C01, C04, C05, C06, C07, C09, C10):
 case generation, implementation runs, reference kernels, Coq case encoding, statement oracles."""
 import math
+import random
 import numpy as np
 from harness import coqio, gen, ref
-from harness.core import exc_kind
+from harness.core import exc_kind, canon_hash
 
 COQ_HEADER = ('From Coq Require Import List ZArith NArith Floats.PrimFloat. Import ListNotations.\n'
               'From ByC Require Import Base.Result Harness.Compare Model.Cycles Model.Features.\nOpen Scope float_scope.')
@@ -21,7 +22,9 @@ BURST = ['amp_fraction', 'amp_consistency', 'period_consistency', 'monotonicity'
 TRUST = ['reference band-pass sign bits, amplitude envelope and dual-threshold mask are computed by the harness with '
          'neurodsp exactly as documented (pad = ceil(filt_len/2), remove_edges=False, n_cycles=3 for the envelope; for a '
          'direct compute_shape_features(n_cycles=k) call k for the envelope and for the default extrema filter), always on '
-         'the float64 value of the samples',
+         'the float64 value of the samples; the detector mask with the minimum-cycle count the property prescribes (burst '
+         'options\' value, else thresholds\', else 3) and the caller\'s detector filter_kwargs, while the run filter\'s count is '
+         'resolved by the Coq model from the two raw option values',
          'derived float cells compared with 1e-9 relative tolerance; indices, labels, NaN pattern and errors exactly']
 
 
@@ -36,11 +39,15 @@ def sample_cols(center):
 # generation
 
 def gen_case(rng, tier, methods=('cycles', 'amp'), centers=('peak', 'trough'), kinds=None, max_len=480,
-             fek_prob=0.7, extra=None, wide=False, f32=False, rs_prob=0.85):
+             fek_prob=0.7, extra=None, wide=False, f32=False, rs_prob=0.85, amp_wide=False, signal=None):
     """One compute_features case.  wide=True additionally varies the band (off-band / narrow / wide), the type and
     value of fs, the container of f_range, the sample dtype (int64; float32 with f32=True) and generates empty option
-    dictionaries (gen.vary); the default keeps the original stream of the drivers that did not ask for it."""
-    s = gen.signal(rng, kind=(rng.choice(kinds) if kinds else None), max_len=max_len)
+    dictionaries (gen.vary); amp_wide=True additionally generates, for the amplitude method, the detector's own
+    `filter_kwargs` and a burst_fraction_threshold taken from a first run (`bft_pick`); the default keeps the original
+    stream of the drivers that did not ask for it.  `signal`: a ready-made gen.signal dictionary.  Every case gets a
+    `key_order` (insertion order of the option dictionaries; drawn from a generator seeded with the case content so
+    that the main stream is not shifted)."""
+    s = signal if signal is not None else gen.signal(rng, kind=(rng.choice(kinds) if kinds else None), max_len=max_len)
     if wide:
         s = gen.vary(rng, s, f32=f32)
     n = len(s['sig'])
@@ -96,7 +103,17 @@ def gen_case(rng, tier, methods=('cycles', 'amp'), centers=('peak', 'trough'), k
                 bk['min_n_cycles'] = rng.choice([1, 2, 3, 4, 5])
             if rng.random() < 0.25:
                 bk['min_burst_duration'] = rng.choice([0, 0, round(rng.choice([1, 2, 3]) * s['period'] / s['fs'], 6)])
+            if amp_wide and rng.random() < 0.25:
+                # the detector's own band-pass options (documented option of compute_burst_fraction)
+                if rng.random() < 0.6:
+                    bk['filter_kwargs'] = {'n_cycles': rng.choice([2, 4, 5])}
+                else:
+                    bk['filter_kwargs'] = {'n_seconds': round(rng.choice([2, 2.5, 4]) * s.get('nsec_unit', s['period'] / s['fs'] / 0.7), 6)}
         c['thr'], c['bk'] = thr, bk
+        if amp_wide and rng.random() < 0.3:
+            # burst_fraction_threshold := the burst_fraction of a partially bursting row of a first run (row chosen by
+            # `pick`), or its neighbour one ulp below / above; resolved at run time (run_pipe), recorded as bft_used
+            c['bft_pick'] = {'pick': rng.random(), 'ulp': rng.choice([-1, 0, 0, 1])}
     if wide and method == 'cycles':
         # empty option dictionaries (what the object interface passes for "no options")
         if rng.random() < 0.08:
@@ -105,7 +122,82 @@ def gen_case(rng, tier, methods=('cycles', 'amp'), centers=('peak', 'trough'), k
             c['bk'] = {}
     if extra:
         c.update(extra)
+    c['key_order'] = key_order(c)
     return c
+
+
+ROUTING_PAIRS = [(1, 5), (5, 1), (2, 6), (6, 2), (2, 4), (4, 2), (1, 3), (3, 1),
+                 (1, None), (1, None), (2, None), (2, None), (5, None), (None, 1), (None, 1), (None, 2), (None, 2), (None, 5),
+                 (None, None), (None, None), (None, None), (None, None)]
+
+
+def gen_routing_case(rng, tier):
+    """C07 min_n_cycles routing made observable: rhythm in bursts of 1-5 periods, the two dictionaries' counts on either
+    side of the burst length (or only one / none given, so that the other value / the default 3 matters),
+    burst_fraction_threshold in {.25, .5, .75, 1}, no min_burst_duration, a short detector filter in 60 %.  run_pipe records whether another plausible count would
+    change the detector mask or the labels (`routing`)."""
+    s = gen.short_bursts(rng)
+    bkn, thn = rng.choice(ROUTING_PAIRS)
+    c = {'kind': 'route/%s/%s' % ('both' if bkn is not None and thn is not None else 'bk' if bkn is not None else
+                                  'thr' if thn is not None else 'neither', s['kind']),
+         'sig': gen.hexlist(s['sig']), 'fs': s['fs'], 'f_range': list(s['f_range']), 'center': rng.choice(['peak', 'trough']),
+         'method': 'amp', 'return_samples': True, 'fek': None, 'routing': True}
+    if rng.random() < 0.3:
+        c['fek'] = {'filter_kwargs': {'n_cycles': rng.choice([2, 3, 4])}}
+    thr = {'burst_fraction_threshold': rng.choice([0.25, 0.5, 0.5, 0.75, 1])}
+    if thn is not None:
+        thr['min_n_cycles'] = thn
+    bk = None
+    if bkn is not None or rng.random() < 0.6:
+        bk = {}
+        if rng.random() < 0.5:
+            bk['amp_threshes'] = rng.choice([(1, 2), (0.5, 1.5), (1, 1.5), (0.8, 1.2)])
+        if bkn is not None:
+            bk['min_n_cycles'] = bkn
+        if rng.random() < 0.6:
+            # a short detector filter keeps the detected bursts about as short as the rhythm's bursts
+            bk['filter_kwargs'] = {'n_cycles': rng.choice([1, 2])}
+    c['thr'], c['bk'] = thr, bk
+    c['key_order'] = key_order(c)
+    return c
+
+
+KW_NAMES = {'fek': 'find_extrema_kwargs', 'thr': 'threshold_kwargs', 'bk': 'burst_kwargs'}
+
+
+def key_order(c):
+    """Insertion order of the keys of the caller's option dictionaries and of the keyword arguments themselves
+    (a caller does not write his settings in any canonical order).  Drawn from a generator seeded with the case content,
+    stored in the case (`key_order`) and honoured by build_kwargs, so that a case replays exactly."""
+    r = random.Random(canon_hash({k: v for k, v in c.items() if k not in ('key_order', 'history')}))
+    ko = {}
+    for name in ('fek', 'thr', 'bk'):
+        d = c.get(name)
+        if isinstance(d, dict) and len(d) > 1:
+            keys = list(d)
+            m = r.random()
+            if 'min_n_cycles' in keys and m < 0.5:
+                # min_n_cycles first / last (the key both dictionaries may carry)
+                keys.remove('min_n_cycles')
+                r.shuffle(keys)
+                keys = ['min_n_cycles'] + keys if m < 0.25 else keys + ['min_n_cycles']
+            else:
+                r.shuffle(keys)
+            ko[name] = keys
+    top = [n for n in ('fek', 'thr', 'bk') if c.get(n) is not None]
+    r.shuffle(top)
+    ko['kw'] = top
+    return ko
+
+
+def _ordered(d, order):
+    if not order:
+        return dict(d)
+    out = {k: d[k] for k in order if k in d}
+    for k in d:
+        if k not in out:
+            out[k] = d[k]
+    return out
 
 
 # ----------------------------------------------------------------------------------------------
@@ -147,13 +239,11 @@ def expected_columns(c, samples=True):
 def build_kwargs(c):
     """The caller's option objects for one case (built ONCE and shared by every call of the case,
     as a user would who keeps his settings in variables)."""
+    ko = c.get('key_order') or {}
     kw = {}
-    if c['fek'] is not None:
-        kw['find_extrema_kwargs'] = _deep(c['fek'])
-    if c['thr'] is not None:
-        kw['threshold_kwargs'] = dict(c['thr'])
-    if c['bk'] is not None:
-        kw['burst_kwargs'] = dict(c['bk'])
+    for name in (ko.get('kw') or []) + ['fek', 'thr', 'bk']:
+        if name in KW_NAMES and KW_NAMES[name] not in kw and c.get(name) is not None:
+            kw[KW_NAMES[name]] = _deep(_ordered(c[name], ko.get(name)))
     return kw
 
 
@@ -202,8 +292,10 @@ def unjson(rows):
              'is_burst': r['is_burst']} for r in rows]
 
 
-def resolved(c):
-    """Settings as documented: filter options, boundary, pad, thresholds with defaults, min-cycle count."""
+def resolved(c, o=None):
+    """Settings as documented: filter options, boundary, pad, thresholds with defaults, min-cycle count.
+    `o`: the outcome of the run; needed only for cases whose burst_fraction_threshold was taken from a first run
+    (`bft_pick`), where the value used is recorded in o['bft_used']."""
     fek = c['fek']
     if fek is None:
         fk, boundary, pad = {'n_cycles': c.get('n_cycles', 3)}, 0, True      # n_cycles: compute_shape_features only
@@ -217,8 +309,11 @@ def resolved(c):
         r['n'] = thr.get('min_n_cycles', 3)
     else:
         bk = c['bk'] or {}
+        r['n_bk'], r['n_thr'] = bk.get('min_n_cycles'), thr.get('min_n_cycles')       # raw option values
         r['n'] = bk['min_n_cycles'] if 'min_n_cycles' in bk else thr.get('min_n_cycles', 3)
         r['bft'] = thr.get('burst_fraction_threshold', 1)
+        if o is not None and o.get('bft_used') is not None:
+            r['bft'] = float.fromhex(o['bft_used'])
         r['amp_threshes'] = tuple(bk.get('amp_threshes', (1, 2)))
         r['min_burst_duration'] = bk.get('min_burst_duration')
         r['bk_filter_kwargs'] = bk.get('filter_kwargs')
@@ -238,6 +333,27 @@ def _rows_of(df, c, out, shape_only=False):
             [x for x in sample_cols(c['center']) if x not in df.columns],)
         return
     out['rows'] = _jsonable(rows)
+
+
+def _ulp_step(x, k):
+    for _ in range(abs(k)):
+        x = math.nextafter(x, math.inf if k > 0 else -math.inf)
+    return min(1.0, max(0.0, x))
+
+
+def _first_run_threshold(sig, c, kw):
+    """burst_fraction_threshold for a `bft_pick` case: the burst_fraction of a partially bursting row of a first run
+    with the caller's other options (row chosen by the case), moved by the case's number of ulps.  None when the first
+    run raises or has no partially bursting row (the case then keeps its own threshold)."""
+    try:
+        df = call_compute_features(sig, c, kw=kw)
+        vals = sorted(set(float(x) for x in np.asarray(df['burst_fraction'], dtype=float) if 0.0 < x < 1.0))
+    except Exception:
+        return None
+    if not vals:
+        return None
+    v = vals[min(len(vals) - 1, int(c['bft_pick']['pick'] * len(vals)))]
+    return _ulp_step(v, c['bft_pick']['ulp'])
 
 
 def run_pipe(c):
@@ -260,10 +376,27 @@ def run_pipe(c):
             refd['mask'] = coqio.mask_of(mask)
             refd['nmask'] = len(mask)
         out['ref'] = refd
+        if c.get('want_mirror'):
+            # premises of the mirror theorem (same envelope and same detector mask on both sides), evidenced per case
+            prem = {'amp': bool(np.array_equal(amp, ref.ref_amp(-sigc, c['fs'], fr, 3)))}
+            if c['method'] == 'amp':
+                prem['mask'] = mask == ref.ref_dualthresh(-sigf, c['fs'], fr, rs['amp_threshes'], rs['n'],
+                                                          rs['min_burst_duration'], rs['bk_filter_kwargs'])
+            out['premise'] = prem
     except Exception as e:
         return {'skip': 'reference kernel failed: %s: %s' % (type(e).__name__, e)}
+    if c.get('history'):
+        out['history'] = run_history(c['history'], 'start')
     snap = sig.copy()
     kw = build_kwargs(c)
+    if c.get('bft_pick') and c['method'] == 'amp':
+        t = _first_run_threshold(sig, c, kw)
+        if t is not None:
+            out['bft_used'] = float(t).hex()
+            tk = dict(kw.get('threshold_kwargs') or {})
+            tk['burst_fraction_threshold'] = t
+            kw['threshold_kwargs'] = tk
+            rs = resolved(c, out)
     try:
         df = call_compute_features(sig, c, return_samples=True, kw=kw)
     except Exception as e:
@@ -273,6 +406,8 @@ def run_pipe(c):
     if df is not None:
         _rows_of(df, c, out)
     out['sig_unchanged'] = bool(np.array_equal(sig, snap))
+    if c.get('routing') and 'rows' in out:
+        out['routing'] = routing_observability(c, out, sigf)
     if 'rows' in out and not c['return_samples']:
         try:
             df2 = call_compute_features(sig, c, return_samples=False, kw=kw)
@@ -294,36 +429,187 @@ def run_pipe(c):
         except Exception as e:
             out['fit_err'] = exc_kind(e)
             out['fit_errmsg'] = str(e)[:200]
-    if 'rows' in out and c.get('want_mirror'):
+    if c.get('history') and any(h.get('at') == 'mid' for h in c['history']):
+        out['history'] += run_history(c['history'], 'mid')
+    inplace_ok = isinstance(sig, np.ndarray) and sig.dtype == np.float64
+    if c.get('want_mirror') and 'ref' in out and ('rows' in out or 'err' in out):
+        # the other centring on the negated signal; run whether or not the primary analysis returned a table
         other = 'trough' if c['center'] == 'peak' else 'peak'
+        inpl = bool(c.get('mirror_inplace')) and inplace_ok
         try:
-            dfm = call_compute_features(-sig, c, center=other, kw=kw)
-            out['mirror'] = _jsonable(table_to_rows(dfm, other)[0])
+            if inpl:
+                np.negative(sig, out=sig)           # the very same ndarray object, negated in place
+                out['mirror_inplace'] = True
+                arg = sig
+            else:
+                arg = -sig
+            dfm = call_compute_features(arg, c, center=other, kw=kw)
+            out['mirror_columns'] = sorted(str(x) for x in dfm.columns)
+            rowsm, hsm = table_to_rows(dfm, other)
+            if hsm:
+                out['mirror'] = _jsonable(rowsm)
+            else:
+                out['mirror_err'] = 'Key'
+                out['mirror_errmsg'] = 'harness: the %s-centred table lacks sample columns %s' % (
+                    other, [x for x in sample_cols(other) if x not in dfm.columns])
         except Exception as e:
             out['mirror_err'] = exc_kind(e)
+            out['mirror_errmsg'] = str(e)[:200]
+        finally:
+            if inpl:
+                sig[:] = snap
     if 'rows' in out and c.get('scale_pow') is not None:
+        inpl = bool(c.get('scale_inplace')) and inplace_ok
         try:
-            dfs = call_compute_features(sig * (2.0 ** c['scale_pow']), c, kw=kw)
+            if inpl:
+                sig *= 2.0 ** c['scale_pow']        # the very same ndarray object, rescaled in place
+                out['scale_inplace'] = True
+                arg = sig
+            else:
+                arg = sig * (2.0 ** c['scale_pow'])
+            dfs = call_compute_features(arg, c, kw=kw)
+            out['scaled_columns'] = sorted(str(x) for x in dfs.columns)
             out['scaled'] = _jsonable(table_to_rows(dfs, c['center'])[0])
         except Exception as e:
             out['scaled_err'] = exc_kind(e)
+            out['scaled_errmsg'] = str(e)[:200]
+        finally:
+            if inpl:
+                sig[:] = snap
     if 'rows' in out and c.get('fs_mult') is not None:
         try:
             m = c['fs_mult']
-            kw2 = kw
-            if c['method'] == 'amp' and c['bk'] and 'min_burst_duration' in c['bk']:
-                kw2 = dict(kw, burst_kwargs=dict(kw['burst_kwargs'], min_burst_duration=c['bk']['min_burst_duration'] / m))
-            if c['fek'] and 'n_seconds' in (c['fek'].get('filter_kwargs') or {}):
-                out['fs_skip'] = True
-            else:
-                dff = call_compute_features(sig, c, fs=c['fs'] * m, f_range=[c['f_range'][0] * m, c['f_range'][1] * m], kw=kw2)
-                out['fsmult'] = _jsonable(table_to_rows(dff, c['center'])[0])
+            # settings given in seconds are expressed in the new time unit (the same number of samples)
+            kw2 = dict(kw)
+            bk2 = kw.get('burst_kwargs')
+            if c['method'] == 'amp' and bk2:
+                bk2 = _deep(bk2)
+                if bk2.get('min_burst_duration') is not None:
+                    bk2['min_burst_duration'] = bk2['min_burst_duration'] / m
+                if 'n_seconds' in (bk2.get('filter_kwargs') or {}):
+                    bk2['filter_kwargs']['n_seconds'] = bk2['filter_kwargs']['n_seconds'] / m
+                kw2['burst_kwargs'] = bk2
+            fek2 = kw.get('find_extrema_kwargs')
+            if fek2 and 'n_seconds' in (fek2.get('filter_kwargs') or {}):
+                fek2 = _deep(fek2)
+                fek2['filter_kwargs']['n_seconds'] = fek2['filter_kwargs']['n_seconds'] / m
+                kw2['find_extrema_kwargs'] = fek2
+                out['fs_nseconds'] = True
+            dff = call_compute_features(sig, c, fs=c['fs'] * m, f_range=[c['f_range'][0] * m, c['f_range'][1] * m], kw=kw2)
+            out['fsmult_columns'] = sorted(str(x) for x in dff.columns)
+            out['fsmult'] = _jsonable(table_to_rows(dff, c['center'])[0])
         except Exception as e:
             out['fsmult_err'] = exc_kind(e)
+            out['fsmult_errmsg'] = str(e)[:200]
     hd = harness_diff(c, out)
     if hd:
         out['harness_diff'] = hd
     return out
+
+
+def routing_observability(c, o, sigf):
+    """For a min_n_cycles routing case: would another plausible count (the other dictionary's value, the default 3)
+    change what the detector returns (reference mask) or what the run filter returns on the table's own
+    burst_fraction column?  {'det': bool, 'filt': bool, 'alts': [...]}; reference kernels only."""
+    rs = resolved(c, o)
+    alts = sorted(set(x for x in (rs.get('n_bk'), rs.get('n_thr'), 3) if x is not None and x != rs['n']))
+    if rs.get('n_bk') is None and rs.get('n_thr') is None:
+        alts = [2, 4]                 # neither given: is it the documented default 3, or a neighbouring count?
+    rf = o['ref']
+    mask = [bool((rf['mask'] >> i) & 1) for i in range(rf['nmask'])]
+    rows = unjson(o['rows'])
+    q = [r['burst'][4] >= rs['bft'] for r in rows]
+    lab = spec_minrun(q, rs['n'])
+    det = filt = False
+    for a in alts:
+        try:
+            m2 = ref.ref_dualthresh(sigf, c['fs'], tuple(c['f_range']), rs['amp_threshes'], a, rs['min_burst_duration'],
+                                    rs['bk_filter_kwargs'])
+        except Exception:
+            continue
+        det = det or (m2 != mask)
+        filt = filt or (spec_minrun(q, a) != lab)
+    return {'det': det, 'filt': filt, 'alts': alts}
+
+
+# ----------------------------------------------------------------------------------------------
+# history: documented public helpers called on scratch tables before / between the analyses of a case
+
+def gen_history(rng, mid_prob=0.3):
+    """1-4 calls of the public functions of bycycle/utils/dataframes.py (every documented flag value) on scratch
+    tables, as a user does who has worked on other data earlier in the same session.  Replayed exactly by run_history."""
+    hist = []
+    for _ in range(rng.randint(1, 4)):
+        f = rng.choice(['rename_extrema_df', 'rename_extrema_df', 'rename_extrema_df', 'split_samples_df', 'drop_samples_df',
+                        'get_extrema_df', 'limit_df', 'limit_df', 'epoch_df', 'flatten_dfs'])
+        h = {'f': f, 'at': 'mid' if rng.random() < mid_prob else 'start',
+             'table': {'center': rng.choice(['peak', 'trough']), 'method': rng.choice(['cycles', 'amp']),
+                       'return_samples': True, 'seed': rng.randint(0, 3)}}
+        if f == 'rename_extrema_df':
+            h['center'] = rng.choice(['peak', 'trough', 'trough'])
+            h['return_samples'] = rng.choice([True, False, False])
+            h['table']['return_samples'] = h['return_samples'] or rng.random() < 0.5
+        elif f in ('drop_samples_df', 'get_extrema_df'):
+            h['table']['return_samples'] = rng.random() < 0.7
+        elif f == 'limit_df':
+            h['start'] = rng.choice([None, 0, 0.5, 1.0])
+            h['stop'] = rng.choice([None, 1.5, 2.0])
+            h['reset_indices'] = rng.choice([True, False])
+        elif f == 'epoch_df':
+            h['epoch_len'] = rng.choice([50, 64, 100])
+        elif f == 'flatten_dfs':
+            h['column_name'] = rng.choice(['Label', 'epoch'])
+            h['two_d'] = rng.random() < 0.4
+        hist.append(h)
+    return hist
+
+
+def _scratch_table(t):
+    """A small table made by the public entry point itself on a fixed scratch signal (200 samples at 100 Hz, 10 Hz rhythm)."""
+    from bycycle.features import compute_features
+    nr = np.random.default_rng(1000 + t['seed'])
+    x = np.sin(2 * np.pi * np.arange(200) / 10 + 0.3) * (1 + 0.5 * np.sin(np.arange(200) / 17.0)) + 0.1 * nr.standard_normal(200)
+    kw = {'threshold_kwargs': {'min_n_cycles': 2}}
+    return compute_features(x, 100, (7, 14), center_extrema=t['center'], burst_method=t['method'],
+                            return_samples=t['return_samples'], **kw), x
+
+
+def run_history(hist, at):
+    """Execute the history entries scheduled `at` ('start' | 'mid'); exceptions of these calls are recorded, not
+    judged (the history is environment, not the subject of the property)."""
+    import warnings
+    res = []
+    for h in hist:
+        if h.get('at', 'start') != at:
+            continue
+        try:
+            import bycycle.utils.dataframes as D
+            with warnings.catch_warnings():
+                warnings.simplefilter('ignore')
+                df, x = _scratch_table(h['table'])
+                f = h['f']
+                if f == 'rename_extrema_df':
+                    D.rename_extrema_df(h['center'], df, return_samples=h['return_samples'])
+                elif f == 'split_samples_df':
+                    D.split_samples_df(df)
+                elif f == 'drop_samples_df':
+                    D.drop_samples_df(df)
+                elif f == 'get_extrema_df':
+                    D.get_extrema_df(df)
+                elif f == 'limit_df':
+                    D.limit_df(df, 100, start=h['start'], stop=h['stop'], reset_indices=h['reset_indices'])
+                elif f == 'epoch_df':
+                    D.epoch_df(df, len(x), h['epoch_len'])
+                elif f == 'flatten_dfs':
+                    dfs = D.epoch_df(df, len(x), 100)
+                    if h['two_d']:
+                        D.flatten_dfs([dfs, [d.copy() for d in dfs]], [[0, 1], [2, 3]], column_name=h['column_name'])
+                    else:
+                        D.flatten_dfs(dfs, list(range(len(dfs))), column_name=h['column_name'])
+            res.append('ok')
+        except Exception as e:
+            res.append('%s: %s' % (type(e).__name__, str(e)[:80]))
+    return res
 
 
 def gen_shape_case(rng, tier):
@@ -441,6 +727,11 @@ def harness_diff(c, o):
             return 'Bycycle.fit table differs from the compute_features table for the same option objects'
     if o.get('helper_diffs'):
         return o['helper_diffs'][0]
+    if 'scaled_columns' in o and o['scaled_columns'] != o.get('columns'):
+        return 'the table of the rescaled signal has other columns: %s' % (sorted(set(o['scaled_columns']) ^ set(o['columns'])),)
+    if 'mirror_columns' in o and mirror_columns(o['mirror_columns']) != o.get('columns'):
+        return 'the table of the mirrored analysis has other columns: %s' % (
+            sorted(set(mirror_columns(o['mirror_columns'])) ^ set(o['columns'])),)
     return None
 
 
@@ -456,14 +747,17 @@ def coq_case(c, o):
     if 'skip' in o or 'ref' not in o or c.get('dtype') == 'float32':
         return None
     sig = gen.unhexlist(c['sig'])
-    rs = resolved(c)
+    rs = resolved(c, o)
     rf = o['ref']
     if c.get('shape_only'):
-        meth = '(MAmp %s %s %s%%Z)' % (coqio.barr(rf['nmask'], 0), coqio.fl(1.0), coqio.Z(3))
+        meth = '(MAmp %s %s None None)' % (coqio.barr(rf['nmask'], 0), coqio.fl(1.0))
     elif c['method'] == 'cycles':
         meth = '(MCycles (%s) %s%%Z)' % (', '.join(coqio.fl(t) for t in rs['thr']), coqio.Z(rs['n']))
     else:
-        meth = '(MAmp %s %s %s%%Z)' % (coqio.barr(rf['nmask'], rf['mask']), coqio.fl(rs['bft']), coqio.Z(rs['n']))
+        # the RAW min_n_cycles entries of the two dictionaries: the model resolves the run filter's count itself
+        meth = '(MAmp %s %s %s %s)' % (coqio.barr(rf['nmask'], rf['mask']), coqio.fl(rs['bft']),
+                                       coqio.opt(rs['n_bk'], lambda x: coqio.Z(x) + '%Z'),
+                                       coqio.opt(rs['n_thr'], lambda x: coqio.Z(x) + '%Z'))
     inp = '(%s, %s, (%s, %d%%nat, %s), %s%%Z, %s)' % (
         'Peak' if c['center'] == 'peak' else 'Trough', coqio.flist(sig), coqio.barr(rf['npos'], rf['pos']), rf['padn'],
         coqio.flist(gen.unhexlist(rf['amp'])), coqio.Z(rs['boundary']), meth)
@@ -815,7 +1109,7 @@ def oracle_labels_amp(c, o):
     if 'skip' in o or 'err' in o or c['method'] != 'amp':
         return None
     rows = unjson(o['rows'])
-    rs = resolved(c)
+    rs = resolved(c, o)
     rf = o['ref']
     mask = [(rf['mask'] >> i) & 1 for i in range(rf['nmask'])]
     bf = []
@@ -842,12 +1136,29 @@ def _mirror_expect(r):
             'flt': [-vtr, -vpk, vris, vdec, vamp, 1 - rdsym, 1 - ptsym, bamp], 'burst': r['burst'], 'is_burst': r['is_burst']}
 
 
-def oracle_mirror(c, o):
-    """C09: analysing sig trough-centred == analysing -sig peak-centred, after the documented swap."""
-    if 'skip' in o or 'err' in o:
+def _same_cell(a, b):
+    return a == b or (math.isnan(a) and math.isnan(b))
+
+
+def oracle_mirror(c, o, exact_burst=True):
+    """C09: analysing sig trough-centred == analysing -sig peak-centred, after the documented swap.  One side returning
+    a table while the other raises is a difference of the two analyses (the kind of error is not compared).  Burst
+    features and labels are to be IDENTICAL (the statement says so; the two runs execute the same operations on the
+    same numbers); voltages / symmetries within 1e-9."""
+    if 'skip' in o or 'ref' not in o:
+        return None
+    if 'err' in o:
+        if 'mirror' in o and full_oscillations(c, o) >= 3:
+            if str(o.get('errmsg', '')).startswith('harness:'):
+                return 'the %s-centred table cannot be read (%s) while the mirrored analysis gives a table of %d rows' % (
+                    c['center'], o['errmsg'][9:], len(o['mirror']))
+            return 'analysis raised %sError (%s) but the mirrored analysis of the negated signal returned a table of %d rows' % (
+                o['err'], o.get('errmsg', ''), len(o['mirror']))
         return None
     if 'mirror_err' in o:
-        return 'mirror analysis raised %s' % o['mirror_err']
+        if str(o.get('mirror_errmsg', '')).startswith('harness:'):
+            return 'mirror analysis: %s' % o['mirror_errmsg'][9:]
+        return 'mirror analysis raised %sError (%s)' % (o['mirror_err'], o.get('mirror_errmsg', ''))
     if 'mirror' not in o:
         return None
     a, b = unjson(o['rows']), unjson(o['mirror'])
@@ -863,11 +1174,20 @@ def oracle_mirror(c, o):
             if not close(x['flt'][k], w['flt'][k]):
                 return 'row %d: %s differs: %r vs mirrored %r' % (i, SHAPE_FLT[k], x['flt'][k], w['flt'][k])
         for k in range(5):
-            if not close(x['burst'][k], w['burst'][k]):
+            if not (_same_cell(x['burst'][k], w['burst'][k]) if exact_burst else close(x['burst'][k], w['burst'][k])):
                 return 'row %d: %s differs: %r vs %r' % (i, BURST[k], x['burst'][k], w['burst'][k])
         if x['is_burst'] != w['is_burst']:
             return 'row %d: is_burst differs' % i
     return None
+
+
+def mirror_columns(cols):
+    """Column names of a table after the peak <-> trough swap of the centring."""
+    sw = {'sample_peak': 'sample_trough', 'sample_trough': 'sample_peak', 'sample_last_trough': 'sample_last_peak',
+          'sample_last_peak': 'sample_last_trough', 'sample_next_trough': 'sample_next_peak',
+          'sample_next_peak': 'sample_next_trough', 'sample_last_zerox_decay': 'sample_last_zerox_rise',
+          'sample_last_zerox_rise': 'sample_last_zerox_decay'}
+    return sorted(sw.get(x, x) for x in cols)
 
 
 def oracle_scale(c, o):
@@ -876,29 +1196,36 @@ def oracle_scale(c, o):
         return None
     a = unjson(o['rows'])
     if 'scaled_err' in o:
-        return 'scaled analysis raised %s' % o['scaled_err']
+        return 'scaled analysis raised %s (%s)' % (o['scaled_err'], o.get('scaled_errmsg', ''))
     if 'scaled' in o:
         f = 2.0 ** c['scale_pow']
+        how = ' (same array rescaled in place)' if o.get('scale_inplace') else ''
         b = unjson(o['scaled'])
         if len(a) != len(b):
-            return 'amplitude scaling changed the number of cycles'
+            return 'amplitude scaling changed the number of cycles' + how
+        lost = sorted(set(o.get('columns', [])) - set(o.get('scaled_columns', o.get('columns', []))))
+        if lost:
+            return 'amplitude scaling lost the columns %s%s' % (lost, how)
         for i, (x, y) in enumerate(zip(a, b)):
             if x['s'] != y['s'] or x['int'] != y['int'] or x['is_burst'] != y['is_burst']:
-                return 'row %d: indices/durations/labels changed under amplitude scaling by 2^%d' % (i, c['scale_pow'])
+                return 'row %d: indices/durations/labels changed under amplitude scaling by 2^%d%s' % (i, c['scale_pow'], how)
             for k in range(8):
                 want = x['flt'][k] * f if k < 5 or k == 7 else x['flt'][k]
                 tol = 1e-9 if k == 7 else 0.0
                 if not (close(y['flt'][k], want, tol) if tol else (y['flt'][k] == want or (math.isnan(want) and math.isnan(y['flt'][k])))):
-                    return 'row %d: %s %r -> %r, expected %r' % (i, SHAPE_FLT[k], x['flt'][k], y['flt'][k], want)
+                    return 'row %d: %s %r -> %r, expected %r%s' % (i, SHAPE_FLT[k], x['flt'][k], y['flt'][k], want, how)
             for k in range(5):
                 if not close(x['burst'][k], y['burst'][k], 1e-12):
-                    return 'row %d: %s changed under amplitude scaling' % (i, BURST[k])
+                    return 'row %d: %s changed under amplitude scaling%s' % (i, BURST[k], how)
     if 'fsmult_err' in o:
-        return 'analysis with scaled fs raised %s' % o['fsmult_err']
+        return 'analysis with scaled fs raised %s (%s)' % (o['fsmult_err'], o.get('fsmult_errmsg', ''))
     if 'fsmult' in o:
         b = unjson(o['fsmult'])
         if len(a) != len(b):
             return 'fs/f_range scaling changed the number of cycles'
+        if 'fsmult_columns' in o and o['fsmult_columns'] != o.get('columns'):
+            return 'fs/f_range scaling changed the columns of the table by %s' % (
+                sorted(set(o['fsmult_columns']) ^ set(o.get('columns', []))),)
         for i, (x, y) in enumerate(zip(a, b)):
             if x['s'] != y['s'] or x['int'] != y['int'] or x['is_burst'] != y['is_burst']:
                 return 'row %d: indices/durations/labels changed when fs and f_range are multiplied by %s' % (i, c['fs_mult'])
@@ -922,19 +1249,61 @@ def nontrivial_table(c, o, need_labels=False):
 
 
 VOID = {'n': 0}
+COUNTS = {}
+
+
+def _count(k, n=1):
+    COUNTS[k] = COUNTS.get(k, 0) + n
+
+
+def premise_failed(o):
+    """The mirror theorem's premise (reference envelope / detector mask of -x equal those of x) does not hold on this input."""
+    pr = o.get('premise')
+    return bool(pr) and not (pr.get('amp', True) and pr.get('mask', True) is not False)
 
 
 def extra_evidence():
-    """Number of cases of this run on which the model comparison was void (model answers Err EDegenerate)."""
-    return {'model_comparison_void_cases': VOID['n']}
+    """Counters of this run: cases on which the model comparison was void (model answers Err EDegenerate); cases carrying
+    a history / an in-place replay / a re-ordered option dictionary / a threshold from a first run; premise checks."""
+    ev = {'model_comparison_void_cases': VOID['n']}
+    ev.update(COUNTS)
+    return ev
 
 
 def kind_of(c, o):
     """Input class for the evidence: generator kind, outcome, and `/model-void` when the model answers Err EDegenerate
-    (no rising or no falling crossing in the reference band-pass) so that the comparison accepts anything."""
+    (no rising or no falling crossing in the reference band-pass) so that the comparison accepts anything.  Also feeds
+    the counters reported by extra_evidence (called once per case by the driver)."""
     void = '/model-void' if ('ref' in o and model_degenerate(o)) else ''
     if void:
         VOID['n'] += 1
+    if c.get('history'):
+        _count('cases_with_history')
+        _count('history_calls', len(c['history']))
+        _count('history_calls_raised', sum(1 for x in o.get('history', []) if x != 'ok'))
+    if o.get('mirror_inplace'):
+        _count('mirror_replays_in_place')
+    if o.get('scale_inplace'):
+        _count('scaled_replays_in_place')
+    if c.get('kernel_rejects_fs_replay'):
+        _count('fs_replays_rejected_by_the_kernel_known_finding')
+    if o.get('fs_nseconds') and 'fsmult' in o:
+        _count('fs_replays_with_rescaled_n_seconds')
+    if o.get('bft_used') is not None:
+        _count('thresholds_taken_from_a_first_run')
+    if (c.get('bk') or {}).get('filter_kwargs') is not None:
+        _count('cases_with_detector_filter_kwargs')
+    ko = c.get('key_order') or {}
+    if any(ko.get(n) and ko[n] != list(c[n]) for n in ('fek', 'thr', 'bk') if isinstance(c.get(n), dict)):
+        _count('cases_with_reordered_option_keys')
+    if 'premise' in o:
+        _count('mirror_premise_checked')
+        if premise_failed(o):
+            _count('mirror_premise_failed')
+            void += '/premise-failed'
+    if 'routing' in o:
+        _count('routing_cases_detector_observable', int(o['routing']['det']))
+        _count('routing_cases_run_filter_observable', int(o['routing']['filt']))
     if c.get('dtype') == 'float32' and 'ref' in o:
         void += '/oracle-only'
     if 'err' in o and 'ref' in o:
